@@ -18,6 +18,7 @@ mod c10;
 mod c11;
 mod c12;
 mod c13;
+mod c16;
 mod c17;
 mod c18;
 mod c19;
@@ -156,6 +157,10 @@ fn main() {
         "C19" => {
             c19::run(&rep);
             (c19::RULE, false, vec![A_CLI, "8 runs expose a per-process hash-order dependence that flips with probability 1/2 with probability 1 - 2^-7", "stderr is not compared (non-empty only on a panic, whose text carries a thread id)"])
+        }
+        "C16" => {
+            c16::run(&rep);
+            (c16::RULE, false, vec![A_CLI, "the expected line of every instruction comes from the renderer's own bookkeeping, independent of the assembler", "messages are located by a keyword and attributed to the instruction whose hook record precedes them"])
         }
         "C06" => {
             c06::run(&rep);
